@@ -35,6 +35,18 @@ fn parse_headers(buf: &[u8]) -> Result<(Headers<'_>, &[u8]), HttpParsingError> {
 
         let line = &buf[..nl - 1];
         let (name, value) = parse_header_line(line)?;
+        if name.eq_ignore_ascii_case(Headers::CONTENT_LENGTH) {
+            // RFC 9112 6.3: a Content-Length that is not a number, or two that differ,
+            // leave the message length unknown; the head is rejected
+            match (
+                crate::http::parse_content_length(value),
+                headers.get_content_length(),
+            ) {
+                (None, _) => return Err(MalformedHeader),
+                (Some(n), Some(m)) if n != m => return Err(MalformedHeader),
+                _ => {}
+            }
+        }
         headers.add(name, value);
 
         buf = &buf[nl + 1..];
